@@ -174,6 +174,28 @@ def check_props_file(pid):
     return rc, out, n, sorted(set(axioms)), closed
 
 
+def coqchk_props(pid):
+    """independent re-check of Props/<pid>.vo and everything it depends on; cached by the hash of the .vo set"""
+    h = hashlib.sha256()
+    for f in sorted(glob.glob(os.path.join(COQ, "theories", "**", "*.vo"), recursive=True)):
+        h.update(f.encode())
+        h.update(open(f, "rb").read())
+    d = os.path.join(BUILD, "coqchk")
+    os.makedirs(d, exist_ok=True)
+    cache = os.path.join(d, "%s.%s.txt" % (pid, h.hexdigest()[:16]))
+    if os.path.exists(cache):
+        txt = open(cache).read()
+        return (0 if txt.startswith("OK") else 1), txt
+    with Lock("coqchk"):
+        rc, out = sh("timeout 3000 coqchk -silent -o -Q theories BFS BFS.Props.%s 2>&1" % pid, cwd=COQ, timeout=3100)
+    ax = re.search(r"\* Axioms:(.*?)\n\s*\n\* Constants", out, re.S)
+    summary = ("OK " if rc == 0 else "FAILED ") + "axioms: " + (" ".join(ax.group(1).split()) if ax else "?")
+    if rc != 0:
+        summary += " :: " + out[-1200:]
+    open(cache, "w").write(summary)
+    return rc, summary
+
+
 def run_both_t1(tag, lines):
     """Run input lines through implementation and model.  Returns (impl, model) output lists."""
     os.makedirs(OUT, exist_ok=True)
